@@ -33,7 +33,10 @@ impl Outcome {
 
     fn generate_testcase_exit_code(&self) -> Option<String> {
         match &self.output.exit_code {
-            ExitStatus::Code(code) if *code != 0 => Some(formatln!("[{}]", code)),
+            // zero is the default and only spelled out if the document already does so
+            ExitStatus::Code(code) if *code != 0 || self.testcase.exit_code == Some(0) => {
+                Some(formatln!("[{}]", code))
+            }
             _ => None,
         }
     }
